@@ -290,6 +290,8 @@ def curated_templates():
     t['replication factor with quality info'] = [DEL(E()), OP(222000), OP(236000), BITS(), Q(), Q()]
     t['markers under 204'] = [OP(204007), element(31021, 'CODE TABLE'), E(), OP(224000), OP(236000), FIX(1, B1()), element(8023, 'CODE TABLE'), OP(224255), OP(204000)]
     t['203 definition under 204'] = [OP(204007), element(31021, 'CODE TABLE'), OP(203012), E(), OP(203255), E(), OP(204000)]
+    t['marker after 203000'] = [OP(203012), E(), OP(203255), E(), OP(203000), OP(224000), OP(236000), FIX(1, B1()), element(8023, 'CODE TABLE'), OP(224255)]
+    t['marker while 203 values are in force'] = [OP(203012), E(), OP(203255), E(), OP(224000), OP(236000), FIX(1, B1()), element(8023, 'CODE TABLE'), OP(224255), OP(203000)]
     t['class 33 marker'] = [Q(), OP(222000), FIX(1, B1()), Q(), OP(223000), OP(237000), OP(223255)]
     # bitmaps written out as plain 031031 members, first and after a replicated one (whose loop body is compiled once)
     t['spelled-out bitmap'] = [E(), E(10004), OP(223000), B1(), B1(), OP(223255)]
